@@ -87,23 +87,8 @@ def _parse_range(size: int, key: Union[int, slice]) -> Tuple[bool, int, int, int
             raise IndexError("index {} is out of bounds for the axis with size {}".format(p, size))
         return True, p, p + 1, 1
     else:
-        start = key.start
-        stop = key.stop
-        step = key.step or 1
-
-        if start is None:
-            start = 0 if step > 0 else size - 1
-        else:
-            if start < 0:
-                start += size
-            start = min(max(0, start), size)
-
-        if stop is None:
-            stop = size if step > 0 else -1
-        else:
-            if stop < 0:
-                stop += size
-            stop = min(max(0, stop), size)
+        # same normalization as Python sequences (handles negative steps and out-of-range bounds)
+        start, stop, step = key.indices(size)
 
         return False, start, stop, step
 
